@@ -127,4 +127,66 @@ def Dump.rest (enc : List E → Bytes) (d : Dump E) : Bytes :=
 
 def Dump.finished (d : Dump E) : Bool := d.pc == 0 && d.todo.isEmpty
 
+/-! ### The key field of a dumped entry
+
+A cache key is binary (`getMsgKey`: flags, qtype, qclass, length octet, name).
+Which protobuf field kind carries it in the dump is the parameter `FieldKind`
+(regenerated fact `c19KeyFieldIsBytes`): proto3 `bytes` takes any octets; a
+proto3 `string` makes `proto.Marshal` (and `Unmarshal`) fail unless the value
+is valid UTF-8 (`utf8.Valid`). `writeDump` returns at the first block that does
+not marshal: that block and all later ones are never written. -/
+
+inductive FieldKind where
+  | bytes   -- opaque octets
+  | utf8    -- proto3 `string`: validated on Marshal / Unmarshal
+  deriving DecidableEq, Repr
+
+def inR (lo hi : Nat) (b : UInt8) : Bool := lo ≤ b.toNat && b.toNat ≤ hi
+
+/-- Go's `utf8.Valid` (well-formed UTF-8, Unicode table 3-7), with fuel. -/
+def validUtf8Aux : Nat → Bytes → Bool
+  | _, [] => true
+  | 0, _ :: _ => false
+  | f + 1, a :: rest =>
+    if a.toNat < 0x80 then validUtf8Aux f rest
+    else if inR 0xC2 0xDF a then
+      match rest with
+      | b :: r => inR 0x80 0xBF b && validUtf8Aux f r
+      | _ => false
+    else if inR 0xE0 0xEF a then
+      match rest with
+      | b :: c :: r =>
+        inR (if a.toNat = 0xE0 then 0xA0 else 0x80) (if a.toNat = 0xED then 0x9F else 0xBF) b &&
+          inR 0x80 0xBF c && validUtf8Aux f r
+      | _ => false
+    else if inR 0xF0 0xF4 a then
+      match rest with
+      | b :: c :: d :: r =>
+        inR (if a.toNat = 0xF0 then 0x90 else 0x80) (if a.toNat = 0xF4 then 0x8F else 0xBF) b &&
+          inR 0x80 0xBF c && inR 0x80 0xBF d && validUtf8Aux f r
+      | _ => false
+    else false
+
+def validUtf8 (bs : Bytes) : Bool := validUtf8Aux bs.length bs
+
+/-- Does `proto.Marshal` accept this value in a field of this kind? -/
+def marshals : FieldKind → Bytes → Bool
+  | .bytes, _ => true
+  | .utf8, k => validUtf8 k
+
+/-- `getMsgKey`: flag bits, qtype, qclass (big-endian), `byte(len(name))`, name. -/
+def msgKey (flags qtype qclass : Nat) (name : Bytes) : Bytes :=
+  UInt8.ofNat flags :: UInt8.ofNat (qtype / 256) :: UInt8.ofNat qtype :: UInt8.ofNat (qclass / 256) ::
+    UInt8.ofNat qclass :: UInt8.ofNat name.length :: name
+
+/-- The blocks `writeDump` gets written (it stops at the first block that does
+not marshal) and whether it returns an error. -/
+def written (kind : FieldKind) (keyOf : E → Bytes) : List (List E) → List (List E) × Bool
+  | [] => ([], false)
+  | b :: bs =>
+    if b.all (fun e => marshals kind (keyOf e)) then
+      let r := written kind keyOf bs
+      (b :: r.1, r.2)
+    else ([], true)
+
 end Model.C19
